@@ -16,5 +16,7 @@ def run(rep, tier, seed):
         "multi-request histories are reduced to the per-instance invariant: every post_request of an instance uses the jar allocated in its own __init__ (fresh-jar contract + cookie-jar-of-this-client clause)",
     ]
     run_contracts(rep, "contracts.client", tier, seed)
+    # the same rules with requests of every kind present (closing statements included): the C06 assembly contracts carry C14 clauses
+    run_contracts(rep, "contracts.client_compose", tier, seed, select=lambda c: "request_statements" in c.target)
     run_contracts(rep, "contracts.client_native", tier, seed)
     replay_known_findings(rep)
